@@ -143,7 +143,7 @@ M("C03", "comms-before-all", "beacon.py", "    if options.issuperset(comms | cor
   "    if options.issuperset(comms):\n        ret.append(\"Comms\")\n        options -= comms\n\n    if options.issuperset(comms | core | cleanup):\n        ret.append(\"All\")\n        options -= comms | core | cleanup\n", "C03.R5")
 M("C03", "values-attr-regression", "beacon.py", "    options = {name for name in comms | core | cleanup if getattr(bgo, name)}", "    options = {k for k, v in bgo._values.items() if v}", "C03.R6")
 M("C03", "x64-transform-other-decoder", "beacon.py", "    BeaconSetting.SETTING_PROCINJ_TRANSFORM_X64: parse_process_injection_transform_steps,", "    BeaconSetting.SETTING_PROCINJ_TRANSFORM_X64: parse_recover_binary,", "C03.R7")
-M("C03", "uris-from-even", "beacon.py", "        return list(dict.fromkeys(uri for (_domain, uri) in self.domain_uri_pairs))", "        return list(dict.fromkeys(_domain for (_domain, uri) in self.domain_uri_pairs))", "C03.R8")
+M("C03", "uris-from-even", "beacon.py", "        return list(dict.fromkeys(uri for (_domain, uri) in self.domain_uri_pairs if uri is not None))", "        return list(dict.fromkeys(_domain for (_domain, uri) in self.domain_uri_pairs))", "C03.R8")  # re-anchored after F24
 M("C03", "port-reads-proto", "beacon.py", "        return self.raw_settings.get(\"SETTING_PORT\", None)", "        return self.raw_settings.get(\"SETTING_PROTOCOL\", None)", "C03.R8")
 T("C03", "twin-steps-as-sets", "beacon.py", "        TransformStep.PRINT,\n        TransformStep.MASK,\n    ]", "        TransformStep.MASK,\n        TransformStep.PRINT,\n    ]")
 T("C03", "twin-options-by-index", "beacon.py", "    options = {name for name in comms | core | cleanup if getattr(bgo, name)}", "    options = {name for name in (comms | core | cleanup) if bgo[name]}")
@@ -313,7 +313,7 @@ T("C13", "twin-pass-bytes", "c2profile.py", "                        # log.debug
 
 # =============================================================================== C09
 M("C09", "tell-header-4", "xordecode.py", "        return self.fh.tell() - (self.nonce_offset + 8)", "        return self.fh.tell() - (self.nonce_offset + 4)", "C09.R1")
-M("C09", "seek-forgets-header", "xordecode.py", "            return self.fh.seek(offset + self.nonce_offset + 8, whence)", "            return self.fh.seek(offset + self.nonce_offset, whence)", "C09.R1")
+M("C09", "seek-forgets-header", "xordecode.py", "            offset += self.nonce_offset + 8\n", "            offset += self.nonce_offset\n", "C09.R1")  # re-anchored after F25
 M("C09", "size-relation-12", "xordecode.py", "        if decoded_size + i + 8 == real_size:", "        if decoded_size + i + 12 == real_size:", "C09.R1")
 M("C09", "giveback-regression", "xordecode.py", "            self.fh.seek(n - len(data), io.SEEK_CUR)\n", "", "C09.R2")
 M("C09", "read0-regression", "xordecode.py", "        if n == 0:\n            return data\n        nonce = self.read_nonce()", "        nonce = self.read_nonce()", "C09.R2")
@@ -400,9 +400,11 @@ T("C05", "twin-forward-by-keyword", "c2.py", "    return decrypt_data(packet.cip
 M("C07", "cache-after-yield", "c2.py", "            yield metadata\n", "            yield metadata\n            self.metadata_cache[c2data.metadata] = metadata\n", "C07.R4")
 M("C09", "validate-within-search-range", "xordecode.py", "pe.find_mz_offset(cast(BinaryIO, xf))", "pe.find_mz_offset(cast(BinaryIO, xf), 0, maxrange)", "C09.R4")
 T("C09", "twin-explicit-default-range", "xordecode.py", "pe.find_mz_offset(cast(BinaryIO, xf))", "pe.find_mz_offset(cast(BinaryIO, xf), maxrange=1024)")
-M("C12", "x-digits-before-check", "c2profile.py",
+# (was listed as a mutant until round 5: read-then-validate is behaviour-preserving here - next(n) is a slice that is simply
+# shorter when fewer characters are left, same exception class and message - independent refactoring benign/C12m is the same edit)
+T("C12", "twin-x-digits-read-then-validated", "c2profile.py",
   "                    if not it.has_next(2):\n                        raise ValueError(\"not enough remaining chars for \\\\xXX\")\n                    hexstr = \"\".join(it.next(2))",
-  "                    hexstr = \"\".join(it.next(2))\n                    if len(hexstr) != 2:\n                        raise ValueError(\"not enough remaining chars for \\\\xXX\")", "C12.R2")
+  "                    hexstr = \"\".join(it.next(2))\n                    if len(hexstr) != 2:\n                        raise ValueError(\"not enough remaining chars for \\\\xXX\")")
 M("C13", "builder-drops-print", "c2profile.py", "            elif option in (\"print\", \"uri-append\", \"uri_append\"):", "            elif option in (\"uri-append\", \"uri_append\"):", "C13.R9")
 T("C13", "twin-terminators-reordered", "c2profile.py", "            elif option in (\"print\", \"uri-append\", \"uri_append\"):", "            elif option in (\"uri_append\", \"print\", \"uri-append\"):")
 M("C14", "shared-empty-request", "c2.py", "", "", "C14.R6",
